@@ -215,3 +215,100 @@ class CFG:
                     if isinstance(st, (ast.If, ast.While)):
                         out.append((st.test, labels.pop()))
         return out
+
+
+# ---- reaching definitions -------------------------------------------------------------
+
+def _targets(t):
+    if isinstance(t, ast.Name):
+        yield t.id
+    elif isinstance(t, (ast.Tuple, ast.List)):
+        for e in t.elts:
+            yield from _targets(e)
+    elif isinstance(t, ast.Starred):
+        yield from _targets(t.value)
+
+
+def defs_of_stmt(stmt):
+    """Names (re)bound by the *header* of this statement."""
+    out = set()
+    if isinstance(stmt, ast.Assign):
+        for t in stmt.targets:
+            out.update(_targets(t))
+    elif isinstance(stmt, (ast.AugAssign, ast.AnnAssign)):
+        out.update(_targets(stmt.target))
+    elif isinstance(stmt, ast.For):
+        out.update(_targets(stmt.target))
+    elif isinstance(stmt, ast.With):
+        for it in stmt.items:
+            if it.optional_vars is not None:
+                out.update(_targets(it.optional_vars))
+    elif isinstance(stmt, (ast.Import, ast.ImportFrom)):
+        for a in stmt.names:
+            out.add((a.asname or a.name).split(".")[0])
+    elif isinstance(stmt, ast.ExceptHandler):
+        if stmt.name:
+            out.add(stmt.name)
+    elif isinstance(stmt, (ast.FunctionDef, ast.ClassDef)):
+        out.add(stmt.name)
+    # walrus / comprehension targets are ignored (comprehension scope is separate)
+    return out
+
+
+class ReachingDefs:
+    """reach[n][name] = set of CFG nodes whose definition of `name` may reach the *entry* of n.
+    ENTRY in the set means 'the parameter / free variable as it was on entry'."""
+
+    def __init__(self, cfg):
+        self.cfg = cfg
+        params = set()
+        a = cfg.func.args
+        for x in a.posonlyargs + a.args + a.kwonlyargs:
+            params.add(x.arg)
+        if a.vararg:
+            params.add(a.vararg.arg)
+        if a.kwarg:
+            params.add(a.kwarg.arg)
+        self.params = params
+        gen = {n: defs_of_stmt(cfg.stmt[n]) if cfg.stmt[n] is not None else set() for n in cfg.succ}
+        IN = {n: {} for n in cfg.succ}
+        OUT = {n: {} for n in cfg.succ}
+        work = list(cfg.succ)
+        while work:
+            n = work.pop()
+            newin = {}
+            for p in cfg.pred[n]:
+                for k, v in OUT[p].items():
+                    newin.setdefault(k, set()).update(v)
+            IN[n] = newin
+            out = {k: set(v) for k, v in newin.items()}
+            for name in gen[n]:
+                out[name] = {n}
+            if out != OUT[n]:
+                OUT[n] = out
+                work.extend(cfg.succ[n])
+        self.IN = IN
+        self.gen = gen
+
+    def at(self, node, name):
+        """Definition nodes of `name` reaching the entry of `node` (ENTRY = value at function entry)."""
+        r = set(self.IN[node].get(name, set()))
+        # paths on which no definition was seen: the entry value (parameter / global / closure)
+        if self._entry_reaches(node, name):
+            r.add(ENTRY)
+        return r
+
+    def _entry_reaches(self, node, name):
+        seen, work = set(), [node]
+        while work:
+            n = work.pop()
+            for p in self.cfg.pred[n]:
+                if p in seen:
+                    continue
+                seen.add(p)
+                if p == ENTRY:
+                    return True
+                if name in self.gen[p]:
+                    continue
+                work.append(p)
+        return node == ENTRY
